@@ -188,8 +188,124 @@ def _exec_block(ev, stmts):
             return
 
 
+def shared_class_state(ctx, rule, module_prefixes):
+    """Class-level mutable containers (one object shared by every instance) that methods write through self/cls.
+
+    A renderer configuration is created per call (per request, per command); what one rendering stores in a container
+    declared in the class body is seen by every later configuration object, whose flags may differ."""
+    from ..facts import MUTABLE_CTORS, MUTATORS
+    repo = ctx.repo
+    n = 0
+    for cid, c in sorted(repo.classes.items()):
+        mod = cid.split(':')[0]
+        if not any(mod == p or mod.startswith(p) for p in module_prefixes):
+            continue
+        n += 1
+        shared = {}
+        for st in c.body:
+            if isinstance(st, ast.Assign) and len(st.targets) == 1 and isinstance(st.targets[0], ast.Name):
+                v = st.value
+                if isinstance(v, (ast.Dict, ast.List, ast.Set)) or (isinstance(v, ast.Call) and (dotted(v.func) or '').split('.')[-1] in MUTABLE_CTORS):
+                    shared[st.targets[0].id] = st
+        # attributes re-created per instance in __init__ are not shared
+        for st in c.body:
+            if isinstance(st, FuncTypes) and st.name == '__init__':
+                for a in ast.walk(st):
+                    if isinstance(a, ast.Assign):
+                        for t in a.targets:
+                            if isinstance(t, ast.Attribute) and dotted(t.value) == 'self' and t.attr in shared:
+                                del shared[t.attr]
+        writes = []
+        cname = cid.split(':')[-1]
+        for st in c.body:
+            if not isinstance(st, FuncTypes):
+                continue
+            for a in ast.walk(st):
+                tgts = []
+                if isinstance(a, ast.Assign):
+                    tgts = a.targets
+                elif isinstance(a, ast.AugAssign):
+                    tgts = [a.target]
+                elif isinstance(a, ast.Delete):
+                    tgts = a.targets
+                for t in tgts:
+                    if isinstance(t, ast.Subscript) and isinstance(t.value, ast.Attribute) and t.value.attr in shared and \
+                            dotted(t.value.value) in ('self', 'cls', cname, 'type(self)'):
+                        writes.append((t.value.attr, a, st))
+                if isinstance(a, ast.Call) and isinstance(a.func, ast.Attribute) and a.func.attr in MUTATORS and \
+                        isinstance(a.func.value, ast.Attribute) and a.func.value.attr in shared and dotted(a.func.value.value) in ('self', 'cls', cname):
+                    writes.append((a.func.value.attr, a, st))
+        ctx.inst(rule, cid, 'class-level containers: %s' % (sorted(shared) or 'none'), not writes,
+                 'no method stores into a container shared by all instances' if not writes else
+                 '%s.%s is one dict/list for every instance; %s() writes it (%s): a verdict stored while rendering with one configuration is '
+                 'replayed for later configurations with other flags' % (cname, writes[0][0], writes[0][2].name, repo.norm(writes[0][1])[:80]),
+                 writes[0][1] if writes else c)
+    return n
+
+
+def tool_output_regexes_anchored(ctx, rule):
+    """Patterns used to delete tool chatter from the output of git diff / diff must be anchored at a line start.
+
+    The output consists of the notebook text being diffed (prefixed by one marker character) plus lines the tool adds.
+    `\\ No newline at end of file` is such an added line and always starts in column 0, which no line of content does.
+    A pattern that can match in the middle of a line also deletes that phrase from content and breaks the count the
+    assertion that follows relies on."""
+    import re
+    try:
+        import re._parser as sre_parse
+        import re._constants as sre_c
+    except ImportError:     # Python < 3.11
+        import sre_parse
+        import sre_constants as sre_c
+    repo, cg = ctx.repo, ctx.cg
+    fn = repo.func(PP + ':external_diff_render')
+    defs = local_defs(fn)
+    n = 0
+    for c in calls_in(fn, nested=False):
+        if not (isinstance(c.func, ast.Attribute) and c.func.attr in ('sub', 'subn')):
+            continue
+        recv = c.func.value
+        comp = None
+        if isinstance(recv, ast.Name) and recv.id == 're':
+            pat_e, flags_e = c.args[0], next((k.value for k in c.keywords if k.arg == 'flags'), None)
+        else:
+            src = None
+            if isinstance(recv, ast.Name):
+                ds = defs.get(recv.id)
+                if ds:
+                    src = ds[-1][0]
+                else:
+                    src = repo.module_assign(PP, recv.id)
+            if not (isinstance(src, ast.Call) and (dotted(src.func) or '').endswith('compile')):
+                raise AnalysisError('external_diff_render: cannot resolve the pattern of %s' % ast.unparse(c)[:60])
+            pat_e = src.args[0]
+            flags_e = src.args[1] if len(src.args) > 1 else next((k.value for k in src.keywords if k.arg == 'flags'), None)
+        pat = const_val(pat_e)
+        if not isinstance(pat, str):
+            raise AnalysisError('external_diff_render: pattern is not a string constant')
+        flags = 0
+        if flags_e is not None:
+            for x in ast.walk(flags_e):
+                if isinstance(x, ast.Attribute) and x.attr in ('M', 'MULTILINE'):
+                    flags |= re.M
+        parsed = sre_parse.parse(pat, flags)
+        first = parsed[0] if len(parsed) else None
+        anchored = first is not None and first[0] == sre_c.AT and first[1] in (sre_c.AT_BEGINNING, sre_c.AT_BEGINNING_LINE) and bool(flags & re.M)
+        n += 1
+        ctx.inst(rule, PP + ':external_diff_render', 'pattern %r flags %s' % (pat, 're.M' if flags & re.M else '0'), anchored,
+                 'matches only at the start of a line of the tool output' if anchored else
+                 'the pattern is not anchored at a line start: it also matches inside lines of notebook text that quote the phrase, deleting '
+                 'content and tripping the `assert n <= 2` that follows (rendering raises)', c)
+    if n == 0:
+        raise AnalysisError('external_diff_render: no regex post-processing of the tool output found')
+
+
 def run(ctx):
+    ctx.rule('R16.7', 'regexes that strip tool chatter from external diff output are anchored at a line start (re.M + ^)', floor=1)
+    ctx.rule('R16.6', 'renderer classes keep no mutable state shared between instances (class-level containers written by methods)', floor=1)
     ctx.rule('R16.5', 'the renderers never test a diff key / path element (line number, list index) by truthiness', floor=1)
     _run_base(ctx)
     from ..keys import key_truthiness
     key_truthiness(ctx, 'R16.5', ['nbdime.prettyprint'], 'rendering a change at index/line 0 takes the wrong branch (the char-level diff of line 0 is applied as a line-level diff and patch() raises)')
+    shared_class_state(ctx, 'R16.6', ['nbdime.prettyprint'] if ctx.tier == 'quick' else ['nbdime.'])
+    tool_output_regexes_anchored(ctx, 'R16.7')
